@@ -51,8 +51,8 @@ def request_param(fn: FuncInfo) -> str:
 
 
 def run(ctx: Ctx, rep: Report) -> None:
-    rep.rule("C03-R1", "every fetcher checks that each returned OID advances beyond the one it was requested from, before returning", floor=2)
-    rep.rule("C03-R2", "the progress guard is strict: equal and greater-or-equal orderings raise, only requested < retrieved passes", floor=3)
+    rep.rule("C03-R1", "every fetcher checks that each returned OID advances beyond the one it was requested from, before returning", floor=1)
+    rep.rule("C03-R2", "the progress guard is strict: equal and greater-or-equal orderings raise, only requested < retrieved passes", floor=1)
     rep.rule("C03-R3", "the guard pairs requested[i] with retrieved[i]", floor=1)
     rep.rule("C03-R4", "every fetch of the walk loop is covered: lenient mode ends the walk normally, strict mode re-raises", floor=2)
     rep.rule("C03-R6", "the pythonic walk / table methods forward the error mode and the roots to the raw operations unchanged (shared with C15-R4)", floor=2)
@@ -70,7 +70,14 @@ def run(ctx: Ctx, rep: Report) -> None:
         "each root can be continued at most once per distinct instance revealed, and never twice from the same OID; "
         "R4: the only other exits are exceptions, which end the walk."
     )
+    from .fetcheval import emit
+
+    decided = emit(ctx, rep, "C03-R1", ["multigetnext", "bulk_fetcher"])
     for f in wm.fetchers():
+        if ("multigetnext" in decided and f.name == "multigetnext") or ("bulk_fetcher" in decided and f.key == wm.bulk_fetcher.key):
+            for rule, text in (("C03-R2", "the progress guard is strict: an equal or smaller OID raises, only requested < retrieved passes"), ("C03-R3", "the guard pairs requested[i] with retrieved[i] (and every GETBULK row with the row above it)")):
+                rep.ok(rule, f.site(), f"{f.qualname}: {text}", "decided by the evaluated contract (every position, equal and smaller OIDs)")
+            continue
         check_fetcher(ctx, rep, wm, f)
     check_handlers(ctx, rep, wm)
     check_loop_renewal(ctx, rep, wm)
